@@ -644,8 +644,35 @@ def check_transform_algebra(ctx, db):
     ctx.require('R-ALGEBRA transform valuations', n, 40)
 
 
+def check_reference_maps_repetitions(ctx, db):
+    """R-MUSTPASS: an element handed on through a reference keeps its own repetition (apply_repetitions = false); its vectors must
+    then be mapped by the linear part of the reference. In every Reference::get_* collector each element appended to the result
+    is, on every path to the append, passed through `X->repetition.transform(magnification, x_reflection, rotation)` of that
+    same element X (CFG dominance; the copy and the moved original alike)."""
+    n = 0
+    for name in ('get_polygons', 'get_flexpaths', 'get_robustpaths', 'get_labels'):
+        f = db.fn('gdstk::Reference::' + name)
+        ctx.touch(f)
+        g = f.cfg
+        apps = [c for c in f.walk() if c.k == 'CXXMemberCallExpr' and (c.callee or '').split('::')[-1] in ('append', 'append_unsafe') and c.child('obj') is not None
+                and lvalue_key(_strip_casts(c.child('obj'))) and f.param('result') is not None and lvalue_key(_strip_casts(c.child('obj'))).endswith(':result') and c.args]
+        trs = [c for c in f.walk() if c.k == 'CXXMemberCallExpr' and (c.callee or '') == 'gdstk::Repetition::transform' and c.child('obj') is not None]
+        for a in apps:
+            k = lvalue_key(_strip_casts(a.args[0]))
+            if k is None:
+                continue
+            n += 1
+            mine = [t for t in trs if lvalue_key(_strip_casts(t.child('obj'))) == k + '->repetition']
+            want = ['this->magnification', 'this->x_reflection', 'this->rotation']
+            good = [t for t in mine if [lvalue_key(_strip_casts(x)) for x in t.args] == want and g.node_dominates(t, a)]
+            ctx.check(bool(good), 'R-MUSTPASS', 'Reference::%s/repetition-mapped@%d' % (name, a.l), a.loc(), 'every element appended passes through repetition.transform(magnification, x_reflection, rotation) on every path',
+                      'an element reaches the result at %s on a path that does not map its own repetition by the linear part of the reference (%d transform calls on it, none dominating): its repetition vectors stay in the coordinates of the referenced cell' % (a.loc(), len(mine)))
+    ctx.require('R-MUSTPASS reference collectors', n, 4)
+
+
 def run(ctx):
     db = ctx.db
+    ctx.attempt(check_reference_maps_repetitions, ctx, db)
     frozen = {('gdstk::Repetition::transform', 0): ['Rectangular', 'Regular', 'Explicit', 'ExplicitX', 'ExplicitY']}
     ns = 0
     for name in ('copy_from', 'get_count', 'get_offsets', 'get_extrema', 'print', 'transform'):
